@@ -465,7 +465,7 @@ theorem Inv.no_conflict {σ : Nat → Bool} {s : Sys} (hI : Inv σ s) {i j : Nat
     threads, any paths. -/
 theorem guarded_no_race {store : Loc → Nat} {paths : Nat → List Ev}
     (hg : ∀ i, Guarded true (paths i)) {s : Sys} (hr : Reach store paths s) : ¬ Race s := by
-  have hI : Inv anyW s := inv_reach hg hr
+  have hI : Inv (fun _ => true) s := inv_reach hg hr
   rintro ⟨i, j, e₁, e₂, hij, h₁, h₂, hc⟩
   have := hI.no_conflict hij h₁ h₂ (fun _ => rfl) (fun _ => rfl)
   rw [this] at hc
@@ -586,7 +586,7 @@ theorem readOnly_step {s s' : Sys} {i j : Nat} (hro : ReadOnly s j) (hf : fire s
     cases e with
     | acq m l' =>
       cases m with
-      | W => simp [isAcq] at hc
+      | W => simp [isAcq, anyW] at hc
       | R =>
         simp only [updHeld, List.mem_cons, Prod.mk.injEq] at hm
         rcases hm with ⟨_, h⟩ | h
